@@ -91,8 +91,9 @@ def gen_dump(rnd, big=False, allow_zero_tid=True, residue_case=False, world=None
             items.append([w.img(t, rnd.randrange(0, 8), rnd.randrange(1, 6))])
         else:
             fr = [rnd.randrange(0, 9) for _ in range(4)]
+            # (a sampler may describe ANOTHER thread than the one that writes the sample: profile-every-thread style)
             items.append([w.perf(1, t, ti=rnd.random() < 0.5, us=True), w.uhdr(t, 3), w.udata(t, fr),
-                          w.thd(t, 12, t), w.perf(2, t, us=True)])
+                          w.thd(t, 12, rnd.choice([t, t, o])), w.perf(2, t, us=True)])
     rnd.shuffle(items)
     if remap_in_sample:
         # INSIDE a sampler window of thread t (after its thread-info record) another thread re-announces t with another
